@@ -18,7 +18,7 @@ RULE = ("histories of 2-9 operations over the line universe {10..60,100}: insert
 ASSUMPTIONS = ["listing text is taken from Runtime::get_listing() and re-typed through Runtime::enter"]
 EXHAUSTIVE = {"quick": False, "thorough": False}
 MARK = "@@FIN@@"
-UNIVERSE = [10, 20, 30, 40, 50, 60, 100]
+UNIVERSE = [5, 10, 15, 20, 30, 40, 50, 60, 100]      # RENUM moves some of these and leaves others where they are
 
 
 def body(rng, n):
@@ -58,7 +58,7 @@ def edit_op(rng):
         form = rng.choice(["%d" % a, "%d-" % a, "-%d" % a, "%d-%d" % (min(a, n), max(a, n))])
         return [sess.E("DELETE " + form), "R100"], True
     if r < 0.71:
-        form = rng.choice(["RENUM", "RENUM 100", "RENUM 100,20", "RENUM 5,0,5", "RENUM 1000,30,10", "RENUM 10,10,10"])
+        form = rng.choice(["RENUM", "RENUM", "RENUM 100", "RENUM 100,20", "RENUM 5,0,5", "RENUM 1000,30,10", "RENUM 10,10,10", "RENUM 20,15,10", "RENUM 10,0,5"])
         return [sess.E(form), "R100"], True
     if r < 0.75:
         return [sess.E("NEW"), "R100"], True
@@ -73,6 +73,8 @@ def edit_op(rng):
 STALE_PROG = ["10 DEF FNA(X)=X+1", "20 FOR I=1 TO 3", "30 GOSUB 100", "40 NEXT I", "50 END", "100 PRINT \"S\";I", "110 STOP", "120 RETURN"]
 STALE_EDITS = [("insert", [sess.E('45 PRINT "new"')]), ("replace", [sess.E('100 PRINT "T";I')]), ("delete", [sess.E("120")]),
                ("delete-absent", [sess.E("45")]), ("DELETE", [sess.E("DELETE 40"), "R100"]), ("RENUM", [sess.E("RENUM"), "R100"]),
+               # renumbering that moves every line but the last one (10..120 -> 50..120)
+               ("RENUM-last-stays", [sess.E("RENUM 50,10,10"), "R100"]),
                ("NEW", [sess.E("NEW"), "R100"]), ("load", ["L:%s:0" % sess.hx('10 PRINT "L"\n20 PRINT "M"\n')]),
                ("insert-first", [sess.E('5 PRINT "first"')])]
 STALE_PROBES = [("CONT", 17), ("RETURN", 3), ("NEXT", 1), ("NEXT I", 1), ("PRINT FNA(1)", 18)]
